@@ -48,7 +48,13 @@ def gen_record(rng, kind=None, big=False):
     kind = kind or rng.choice(["FB", "CR", "CB", "FE", "FD", "RI", "RQ", "DS", "EN"])
     if kind == "FB":
         ln = rng.choice([1, 2, 1023, 1024, rng.range(1, 64), rng.range(1, 1024)])
-        p = valid_path(rng, ln) if rng.chance(5, 6) else name_bytes(rng, rng.choice([0, ln, 1025, rng.range(0, 1100)]))
+        if rng.chance(1, 8):
+            # multi-byte UTF-8 names around the 1024-BYTE limit (rune count well below it)
+            unit = rng.choice(["\u00e9", "\u65e5", "\U0001f600"]).encode("utf-8")
+            target = rng.choice([1020, 1023, 1024, 1025, 1026, 1030, 2048])
+            p = (b"d/" + unit * (target // len(unit)))[:target] if rng.chance(1, 2) else unit * (target // len(unit))
+        else:
+            p = valid_path(rng, ln) if rng.chance(5, 6) else name_bytes(rng, rng.choice([0, ln, 1025, rng.range(0, 1100)]))
         return f"FB {hx(p)} {num(rng, U64)} {num(rng, U32)} {num(rng, U64)} {num(rng, U8)} {num(rng, U16)} {num(rng, U16)} {num(rng, U32)} {num(rng, U32)}"
     if kind == "CR":
         return f"CR {num(rng, U64)} {num(rng, U32)}"
